@@ -11,9 +11,11 @@ Oracle (property relation evaluated on the implementation itself, independent nu
   * the running triple after every chunk of every composition = one-pass (mean, var ddof=1, count) of the prefix;
   * returned mean / variance / std_error / num_samples = one-pass statistics of the observable applied to every
     chain state captured at the (wrapped, called-through) public `nn_state.sample`;
-  * count = chains * draws >= requested, chains as documented; k = [burn_in, steps, ..., steps]; every draw starts
-    from the previous draw's returned chain states; the caller's initial chains are untouched unless overwrite,
-    and then hold the final chain states;
+  * count = chains * draws >= requested (chains = number of chain states every draw returns; the docstring's rule
+    deriving it from num_chains is compared with the model for information only); k = [burn_in, steps, ..., steps];
+    every draw starts from the previous draw's returned chain states by value, zero-step draws return them unchanged
+    and (torch.bernoulli wrapped) the first Gibbs conditional of each draw is the one computed from them; the caller's
+    initial chains are untouched unless overwrite, and then hold the final chain states;
   * System gives each observable the dictionary it gets alone on the same chain states."""
 import inspect
 import itertools
@@ -33,6 +35,9 @@ RULE = ("(a) merge: random data sets of n = 1..8 values (normal / integer-valued
         "0.5*SigmaX+NeighbourInteraction+1.0) rotating over the cases; plus user-supplied initial chains of every "
         "length 1..num_samples+2 with overwrite on/off; (c) System: 2..4 observables incl. composites over all "
         "(num_samples, num_chains), each compared with the observable alone on the replayed chain states. "
+        "call forms rotate over keyword / positional / all-keyword, plus calls relying on the signature defaults "
+        "(num_chains, burn_in, steps); torch.bernoulli is wrapped during every run to tie each draw's first Gibbs "
+        "conditional to the chain states it starts from. "
         "non-trivial := >= 2 draws and the drawn observable values are not all equal")
 ASSUMPTIONS = [
     "sampler contract: nn_state.sample returns as many chain states as requested / as initial_state holds "
@@ -149,8 +154,9 @@ class Recorder:
     """Instance-level wrapper of the public nn_state.sample: records k / num_samples / initial_state of every
     call and a copy of the returned chain states; calls through to the real sampler (or replays states)."""
 
-    def __init__(self, state, replay=None):
+    def __init__(self, state, replay=None, spy=None):
         self.state = state
+        self.spy = spy
         self.real = state.sample
         self.sig = inspect.signature(self.real)
         self.replay = replay
@@ -164,10 +170,12 @@ class Recorder:
                "init": None if init is None else init.detach().clone(),
                "init_ptr": None if init is None else init.data_ptr(),
                "overwrite": bool(ba.arguments.get("overwrite"))}
+        b0 = len(self.spy.calls) if self.spy is not None else 0
         if self.replay is not None:
             out = self.replay[min(len(self.calls), len(self.replay) - 1)].clone()
         else:
             out = self.real(*a, **kw)
+        rec["bern"] = self.spy.calls[b0:] if self.spy is not None else None
         rec["ret"] = out.detach().clone()
         self.calls.append(rec)
         return out
@@ -184,10 +192,75 @@ class Recorder:
         return False
 
 
-def expected_chains(S, nc, L):
-    if L is not None:
-        return L
-    return S if (nc == 0 or nc > S) else nc
+class BernoulliSpy:
+    """Records the probability tensor handed to every torch.bernoulli call (values at entry)."""
+
+    def __init__(self):
+        self.calls = []
+
+    def __enter__(self):
+        import torch
+        self.torch = torch
+        self.orig = torch.bernoulli
+        spy = self
+
+        def wrapped(inp, *a, **k):
+            spy.calls.append(inp.detach().clone().numpy().astype(float))
+            return spy.orig(inp, *a, **k)
+        torch.bernoulli = wrapped
+        return self
+
+    def __exit__(self, *exc):
+        self.torch.bernoulli = self.orig
+        return False
+
+
+def first_conditionals(state, prev):
+    """independent numpy evaluation of the conditionals a Gibbs step can start with, given visible states prev:
+    P(h=1|v) = sigmoid(v W^T + c) and, for the purification RBM, P(a=1|v) = sigmoid(v U^T + d)"""
+    v = prev.numpy().astype(float)
+    rbm = state.rbm_am
+    out = []
+
+    def sig(x):
+        return 1.0 / (1.0 + np.exp(-x))
+    if hasattr(rbm, "weights_W"):
+        out.append(sig(v @ rbm.weights_W.data.numpy().T + rbm.hidden_bias.data.numpy()))
+        out.append(sig(v @ rbm.weights_U.data.numpy().T + rbm.aux_bias.data.numpy()))
+    else:
+        out.append(sig(v @ rbm.weights.data.numpy().T + rbm.hidden_bias.data.numpy()))
+    return out
+
+
+def continues_from(ctx, case, state, call, start, draw):
+    """Effect-level continuity: the chain states the draw returns must come from `start` (the previous draw's
+    returned states / the supplied initial chains), not from states the sampler re-initialised internally.
+      k = 0: the returned states are `start`, value for value;
+      k >= 1: the first conditional sampled inside the draw (first torch.bernoulli call whose probability tensor
+              has the shape of P(h|v) or P(a|v)) is the one computed from `start` (independent numpy evaluation).
+    If the sampler does not draw through torch.bernoulli the second part is unobservable and only counted."""
+    import torch
+    if call["k"] == 0:
+        ctx.require("zero Gibbs steps leave the continuing chains as they were (returned states == starting states)",
+                    call["ret"].shape == start.shape and torch.equal(call["ret"], start), case, {"draw": draw})
+        return
+    bern = call.get("bern")
+    if not bern:
+        ctx.count("continuity_effect:bernoulli_not_observed")
+        return
+    cands = first_conditionals(state, start)
+    for p in bern:
+        same_shape = [c for c in cands if c.shape == p.shape]
+        if not same_shape:
+            continue
+        ok = any(np.allclose(p, c, rtol=1e-9, atol=1e-12) for c in same_shape)
+        ctx.require("the first Gibbs conditional of a draw is computed from the chain states the draw starts from "
+                    "(previous draw's returned states / supplied initial chains)", ok, case,
+                    {"draw": draw, "k": call["k"], "p_first_row": p.reshape(len(p), -1)[0].tolist(),
+                     "expected_first_row": same_shape[0][0].tolist()})
+        ctx.count("continuity_effect:checked")
+        return
+    ctx.count("continuity_effect:no_conditional_shaped_call")
 
 
 # ------------------------------------------------------------------------------------ (a) merge
@@ -220,7 +293,7 @@ def merge_case(ctx, data, comp, steps_vs_model=True):
         okm = near(run[0], rm, scale)
         okv = near(run[1], rv, scale * scale)
         ctx.require("streaming merge == one-pass statistics of the concatenation",
-                    okm and okv and run[2] == rn and isinstance(run[2], int), case,
+                    okm and okv and run[2] == rn, case,
                     {"after_values": len(seen), "running": [float(run[0]), float(run[1]), run[2]], "one_pass": [rm, rv, rn]})
     r = m.call("c13_merge_chunks", chunks)
     ctx.agree("folded _update_statistics vs model merge_chunks", [run[0], run[1], run[2]], r, case, scale=scale * scale)
@@ -270,32 +343,37 @@ def run_merge(ctx, search=False):
 
 
 # ------------------------------------------------------------------------------------ (b), (c) statistics
-def check_calls(ctx, case, calls, S, nc, burn, steps, init_before):
-    """schedule / continuity oracle on the recorded sample() calls; returns (chains, draws) or None"""
+def check_calls(ctx, case, state, calls, S, nc, burn, steps, init_before):
+    """schedule / continuity oracle on the recorded sample() calls; returns (chains, draws) or None.
+    chains = number of chain states each draw returned (the same for every draw).  The documented rule that
+    derives it from num_chains / num_samples is NOT demanded here (the property statement does not contain it);
+    it is compared with the model's num_chains_eff for information only (histogram chains_rule:*)."""
     import torch
     draws = len(calls)
     if not ctx.require("at least one draw", draws >= 1, case):
         return None
     rows = [int(c["ret"].shape[0]) for c in calls]
-    L = None if init_before is None else int(init_before.shape[0])
-    chains = expected_chains(S, nc, L)
-    ctx.require("number of parallel chains (len(initial_state), else num_chains, else num_samples when 0 or larger)",
-                all(r == chains for r in rows), case, {"rows_per_draw": rows, "expected": chains})
+    chains = rows[0]
+    ctx.require("every draw returns the same number of parallel chains (>= 1)",
+                chains >= 1 and all(r == chains for r in rows), case, {"rows_per_draw": rows})
     ks = [c["k"] for c in calls]
     ctx.require("k schedule is [burn_in, steps, ..., steps]", ks == [burn] + [steps] * (draws - 1), case,
                 {"k": ks, "burn_in": burn, "steps": steps})
     c0 = calls[0]
     if init_before is None:
-        ctx.require("first draw starts from fresh chains (initial_state None) and asks for `chains` of them",
-                    c0["init"] is None and c0["num_samples"] == chains, case,
-                    {"init_is_none": c0["init"] is None, "num_samples": c0["num_samples"]})
+        ctx.count("first_draw_init:" + ("none" if c0["init"] is None else "given_by_statistics"))
     else:
-        ctx.require("first draw starts from the supplied initial chains",
-                    c0["init"] is not None and c0["init"].shape == init_before.shape and torch.equal(c0["init"], init_before), case)
+        ok0 = c0["init"] is not None and c0["init"].shape == init_before.shape and torch.equal(c0["init"], init_before)
+        ctx.require("first draw starts from the supplied initial chains", ok0, case)
+        if ok0 and state is not None:
+            continues_from(ctx, case, state, c0, init_before, 0)
     for i in range(1, draws):
         ci = calls[i]
-        ok = ci["init"] is not None and ci["init"].shape == calls[i - 1]["ret"].shape and torch.equal(ci["init"], calls[i - 1]["ret"])
+        prev = calls[i - 1]["ret"]
+        ok = ci["init"] is not None and ci["init"].shape == prev.shape and torch.equal(ci["init"], prev)
         ctx.require("each draw continues from the previous draw's chain states", ok, case, {"draw": i})
+        if ok and state is not None:
+            continues_from(ctx, case, state, ci, prev, i)
     return chains, draws
 
 
@@ -336,39 +414,60 @@ def impl_tags(calls):
     return tags
 
 
+def sig_defaults(fn):
+    """defaults of num_chains / burn_in / steps as the public signature declares them"""
+    ps = inspect.signature(fn).parameters
+    return int(ps["num_chains"].default), int(ps["burn_in"].default), int(ps["steps"].default)
+
+
+def call_statistics(target, state, S, nc, burn, steps, init, ow, form):
+    """the call forms of the public API: keywords, positional, all defaults, nn_state/num_samples by keyword"""
+    extra = {} if init is None else dict(initial_state=init, overwrite=ow)
+    if form == "positional":
+        if init is None:
+            return target.statistics(state, S, nc, burn, steps)
+        return target.statistics(state, S, nc, burn, steps, init, ow)
+    if form == "defaults":
+        return target.statistics(state, S, **extra)
+    if form == "allkw":
+        return target.statistics(nn_state=state, num_samples=S, steps=steps, burn_in=burn, num_chains=nc, **extra)
+    return target.statistics(state, S, num_chains=nc, burn_in=burn, steps=steps, **extra)
+
+
 def stat_case(ctx, spec, state=None):
-    """spec: part, state{...}, obs | obs_list, S, nc, burn, steps, init (list of rows or None), overwrite, torch_seed"""
+    """spec: part, state{...}, obs | obs_list, S, nc, burn, steps, init (list of rows or None), overwrite, torch_seed,
+    form (kw | positional | defaults | allkw; with `defaults` nc / burn / steps are those of the signature)"""
     import torch
     from qucumber.observables import System
     m = ctx.get_model()
     case = spec
     state = state if state is not None else build_state(spec["state"])
     is_system = spec["part"] == "system"
+    form = spec.get("form", "kw")
     S, nc, burn, steps, ow = spec["S"], spec["nc"], spec["burn"], spec["steps"], bool(spec["overwrite"])
     keys = spec["obs_list"] if is_system else [spec["obs"]]
     obs_list = [make_obs(k) for k in keys]
     target = System(*obs_list) if is_system else obs_list[0]
+    if form == "defaults":
+        nc, burn, steps = sig_defaults(target.statistics)
     init = None if spec["init"] is None else torch.tensor(spec["init"], dtype=torch.double)
     init_before = None if init is None else init.clone()
     L = None if init is None else int(init.shape[0])
-    kwargs = dict(num_chains=nc, burn_in=burn, steps=steps)
-    if init is not None:
-        kwargs.update(initial_state=init, overwrite=ow)
     torch.manual_seed(spec["torch_seed"])
-    with Recorder(state) as rec:
-        ok, res = ctx.call(("System" if is_system else "Observable") + ".statistics", case,
-                           target.statistics, state, S, **kwargs)
+    with BernoulliSpy() as spy:
+        with Recorder(state, spy=spy) as rec:
+            ok, res = ctx.call(("System" if is_system else "Observable") + ".statistics", case,
+                               call_statistics, target, state, S, nc, burn, steps, init, ow, form)
     if not ok:
         return
     calls = rec.calls
-    cd = check_calls(ctx, case, calls, S, nc, burn, steps, init_before)
+    cd = check_calls(ctx, case, state, calls, S, nc, burn, steps, init_before)
     if cd is None:
         return
     chains, draws = cd
     # the caller's tensor
-    first_kind = 0
     if init is not None:
-        first_kind = 1 if calls[0]["init_ptr"] == init.data_ptr() else 2
+        ctx.count("first_draw_tensor:" + ("caller's" if calls[0]["init_ptr"] == init.data_ptr() else "copy"))
         if ow:
             ctx.require("overwrite=True: the caller's initial_state holds the final chain states",
                         torch.equal(init, calls[-1]["ret"]), case)
@@ -382,8 +481,9 @@ def stat_case(ctx, spec, state=None):
     allv = [x for v in vals[0] for x in v]
     nontriv = draws >= 2 and len(set(allv)) > 1
     ctx.case({"part": spec["part"], "state": spec["state"]["kind"], "obs": keys, "S": S, "nc": nc, "burn": burn, "steps": steps,
-              "L": L, "ow": ow}, nontrivial=nontriv)
+              "L": L, "ow": ow, "form": form}, nontrivial=nontriv)
     ctx.count("%s:%s" % (spec["part"], spec["state"]["kind"]))
+    ctx.count("form:" + form)
     ctx.count("draws=%d" % draws if draws < 6 else "draws>=6")
     ctx.count("chains=1" if chains == 1 else "chains>1")
     ctx.count("nc:" + ("0" if nc == 0 else "1" if nc == 1 else ">S" if nc > S else "divisor" if S % nc == 0 else "non-divisor"))
@@ -391,35 +491,51 @@ def stat_case(ctx, spec, state=None):
         ctx.count("init:overwrite" if ow else "init:clone")
     for k in keys:
         ctx.count("obs:" + k)
-    # ---- correspondence with the Coq model
-    sch = m.call("c13_schedule", init is not None, L or 0, nc, S, burn, steps, ow)
-    ctx.agree_exact("number of chains vs model num_chains_eff", chains, int(sch[0]), case)
-    ctx.agree_exact("number of draws vs model num_draws", draws, int(sch[1]), case)
+    # ---- informational only: the docstring's rule for the number of chains (not part of the property statement)
+    rule = m.call("c13_schedule", init is not None, L or 0, nc, S, burn, steps, ow, 0)
+    if int(rule[0]) == chains:
+        ctx.count("chains_rule:as_documented")
+    else:
+        ctx.count("chains_rule:differs_from_docstring(informational)")
+        ctx.extra["note_chains_rule"] = ("the number of chains observed differs from the documented rule "
+                                         "(len(initial_state) | num_samples if num_chains is 0 or larger | num_chains) in some cases; "
+                                         "the property statement does not constrain it, so this is not a violation")
+    num_args = [c["num_samples"] for c in calls]
+    ctx.count("num_samples_arg:" + ("chains_every_call" if all(x == chains for x in num_args) else "other"))
+    # ---- correspondence with the Coq model, evaluated for the number of chains observed
+    sch = m.call("c13_schedule", init is not None, L or 0, nc, S, burn, steps, ow, chains)
+    ctx.agree_exact("number of draws vs model num_draws (for the observed number of chains)", draws, int(sch[1]), case)
     ctx.agree_exact("k arguments vs model k_schedule", [c["k"] for c in calls], [int(x) for x in sch[2]], case)
     ctx.agree_exact("reported count vs model chains*draws", int(results[0]["num_samples"]), int(sch[3]), case)
-    ctx.agree_exact("tensor handed to the first draw (none / caller's / clone) vs model first_init_kind", first_kind, int(sch[4]), case)
     if not is_system:
-        r = m.call("c13_statistics", vals[0], init is not None, L or 0, nc, S, burn, steps)
+        r = m.call("c13_statistics", vals[0], init is not None, L or 0, nc, S, burn, steps, chains)
         ctx.agree("statistics dictionary vs model statistics",
                   [res["mean"], res["variance"], res["std_error"], res["num_samples"]], r[0], case)
         ctx.agree_exact("k of every call vs model trace", [c["k"] for c in calls], [int(x) for x in r[1]], case)
-        ctx.agree_exact("num_samples of every call vs model trace", [c["num_samples"] for c in calls], [int(x) for x in r[2]], case)
-        ctx.agree_exact("initial_state of every call vs model trace (chain continuity)", impl_tags(calls), [int(x) for x in r[3]], case)
+        tags = impl_tags(calls)
+        mtags = [int(x) for x in r[3]]
+        if init is None:            # what the first draw starts from without user chains is not constrained
+            tags, mtags = tags[1:], mtags[1:]
+        ctx.agree_exact("initial_state of every call vs model trace (chain continuity)", tags, mtags, case)
     else:
         per_draw = [[vals[j][d] for j in range(len(obs_list))] for d in range(draws)]
-        r = m.call("c13_system", per_draw, len(obs_list), init is not None, L or 0, nc, S, burn, steps)
+        r = m.call("c13_system", per_draw, len(obs_list), init is not None, L or 0, nc, S, burn, steps, chains)
         for o, rr, mm in zip(obs_list, results, r):
             ctx.agree("System dictionary of %s vs model system_statistics" % o.name,
                       [rr["mean"], rr["variance"], rr["std_error"], rr["num_samples"]], mm, case)
         # each observable alone on the same chain states
         replay_states = [c["ret"] for c in calls]
         for o, rr in zip(obs_list, results):
-            kw2 = dict(kwargs)
-            if init is not None:
-                kw2.update(initial_state=init_before.clone(), overwrite=False)
+            i2 = None if init is None else init_before.clone()
             with Recorder(state, replay=replay_states) as rec2:
-                ok, alone = ctx.call("Observable.statistics (alone, replayed chain states)", case, o.statistics, state, S, **kw2)
+                ok, alone = ctx.call("Observable.statistics (alone, replayed chain states)", case,
+                                     call_statistics, o, state, S, nc, burn, steps, i2, False, form)
             if not ok:
+                continue
+            if init is None and rec2.calls and rec2.calls[0]["num_samples"] != chains:
+                # alone, the observable would run a different number of chains than the System did: the System's
+                # chain states cannot be "the same chain states" for it; nothing the property constrains
+                ctx.count("system_vs_alone:different_chain_count(incomparable)")
                 continue
             same_states = len(rec2.calls) == len(calls)
             good = same_states and all(near(alone[k], rr[k]) for k in ("mean", "variance", "std_error")) \
@@ -427,6 +543,7 @@ def stat_case(ctx, spec, state=None):
             ctx.require("System gives each observable what it gets alone on the same chain states", good, case,
                         {"observable": o.name, "system": {k: float(v) for k, v in rr.items()},
                          "alone": {k: float(v) for k, v in alone.items()}})
+            ctx.count("system_vs_alone:compared")
     ctx.traces += 1
 
 
@@ -484,7 +601,8 @@ def run_statistics(ctx, Smax, sweeps, deadline=None):
                     st, sspec, key = pick(idx + sweep)
                     idx += 1
                     spec = {"part": "statistics", "state": sspec, "obs": key, "S": S, "nc": nc, "burn": burn, "steps": steps,
-                            "init": None, "overwrite": False, "torch_seed": ctx.torch_seed()}
+                            "init": None, "overwrite": False, "torch_seed": ctx.torch_seed(),
+                            "form": ("kw", "positional", "allkw")[(idx // 5) % 3]}
                     stat_case(ctx, spec, st)
             if deadline and time.time() > deadline:
                 return
@@ -497,7 +615,8 @@ def run_statistics(ctx, Smax, sweeps, deadline=None):
                 idx += 1
                 part = "system" if idx % 3 == 0 else "statistics"
                 spec = {"part": part, "state": sspec, "S": S, "nc": int(ctx.rng.integers(0, S + 3)), "burn": burn, "steps": steps,
-                        "init": rand_init(ctx, L, sspec["nv"]), "overwrite": ow, "torch_seed": ctx.torch_seed()}
+                        "init": rand_init(ctx, L, sspec["nv"]), "overwrite": ow, "torch_seed": ctx.torch_seed(),
+                        "form": ("kw", "positional", "allkw")[idx % 3]}
                 if part == "system":
                     spec["obs_list"] = system_keys(ctx)
                 else:
@@ -511,7 +630,22 @@ def run_statistics(ctx, Smax, sweeps, deadline=None):
                 burn, steps = PAIRS16[(idx * 5 + 3 + rep) % 16]
                 idx += 1
                 spec = {"part": "system", "state": sspec, "obs_list": system_keys(ctx), "S": S, "nc": nc, "burn": burn, "steps": steps,
-                        "init": None, "overwrite": False, "torch_seed": ctx.torch_seed()}
+                        "init": None, "overwrite": False, "torch_seed": ctx.torch_seed(),
+                        "form": ("kw", "positional", "allkw")[idx % 3]}
+                stat_case(ctx, spec, st)
+    # default arguments (num_chains / burn_in / steps as the signature declares them), with and without initial chains
+    for S in range(1, Smax + 1, 1 if ctx.thorough else 2):
+        for part in ("statistics", "system"):
+            for with_init in (False, True):
+                st, sspec, key = pick(idx)
+                idx += 1
+                spec = {"part": part, "state": sspec, "S": S, "nc": -1, "burn": -1, "steps": -1, "form": "defaults",
+                        "init": rand_init(ctx, int(ctx.rng.integers(1, S + 2)), sspec["nv"]) if with_init else None,
+                        "overwrite": bool(with_init and idx % 2), "torch_seed": ctx.torch_seed()}
+                if part == "system":
+                    spec["obs_list"] = system_keys(ctx)
+                else:
+                    spec["obs"] = key
                 stat_case(ctx, spec, st)
     # statistics_from_samples directly (1 row: nan variance)
     for i, (st, sspec) in enumerate(states):
